@@ -32,7 +32,7 @@ ASSUMPTIONS = [
     'every evaluation builds fresh step objects and fresh scratch directories (checkpoints are always first runs)',
 ]
 BUDGET = {'quick': dict(examples=480, shards=8, seconds=80),
-          'thorough': dict(examples=16000, shards=16, seconds=1200)}
+          'thorough': dict(examples=64000, shards=16, seconds=1200)}
 
 BAD_LINKS = ['int', 'none', 'object', 'wrong-param', 'two-params', 'zero-params']
 
